@@ -19,6 +19,7 @@ package tsdb
 
 import (
 	"fmt"
+	"math"
 	"sort"
 	"strconv"
 	"sync"
@@ -109,9 +110,19 @@ func (s *segment) GetDataFamilies(timeRange timeutil.TimeRange) []DataFamily {
 	var result []DataFamily
 	calc := s.interval.Calculator()
 
+	// the query range is not confined to this segment: the family of a timestamp is only meaningful
+	// inside the segment(for month/year interval it's the day of month/month of year of the timestamp),
+	// so clamp the range to the segment before calculating the families.
+	start := timeRange.Start
+	if start < s.baseTime {
+		start = s.baseTime
+	}
 	familyQueryTimeRange := timeutil.TimeRange{
-		Start: calc.CalcFamilyStartTime(s.baseTime, calc.CalcFamily(timeRange.Start, s.baseTime)),
-		End:   calc.CalcFamilyStartTime(s.baseTime, calc.CalcFamily(timeRange.End, s.baseTime)),
+		Start: calc.CalcFamilyStartTime(s.baseTime, calc.CalcFamily(start, s.baseTime)),
+		End:   math.MaxInt64, // query range ends after this segment
+	}
+	if calc.CalcSegmentTime(timeRange.End) <= s.baseTime {
+		familyQueryTimeRange.End = calc.CalcFamilyStartTime(s.baseTime, calc.CalcFamily(timeRange.End, s.baseTime))
 	}
 	familyNames := s.kvStore.ListFamilyNames()
 
